@@ -72,6 +72,12 @@ fn val(s: &str) -> Result<Variant, VariantError> {
         }
     }
 
+    // more digits than a DOUBLE can hold: the value is an infinity (many integer digits)
+    // or not a number (many fraction digits: infinity divided by infinity)
+    if !value.is_finite() {
+        return Err(VariantError::Overflow);
+    }
+
     if state == STATE_INITIAL || state == STATE_SIGN {
         Ok(Variant::VInteger(0))
     } else if state == STATE_INT || state == STATE_DOT {
